@@ -266,14 +266,16 @@ struct Worker {
 	}
 
 	// Full verdict for one plan. Returns null (held), {"out_of_scope":..} or a violation object.
-	Json evaluate(const Json & plan, ChildOutcome * outp = nullptr, bool verbose = false) {
+	Json evaluate(const Json & plan_in, ChildOutcome * outp = nullptr, bool verbose = false) {
+		Json plan = plan_in;
+		eng->prepare(plan, ctx);
 		ChildOutcome out = ctx.run_child(plan, verbose);
 		if (outp) *outp = out;
 		if (out.status == "timeout" || out.status == "harness") {
 			Json h = Json::object(); h["harness"] = out.status; h["stderr"] = out.stderr_head.substr(0, 2000); return h;
 		}
 		if (out.status != "finished") {
-			// engines may claim some abnormal ends themselves (C13: step cap == non-termination)
+			// engines may claim some abnormal ends themselves (C13: step cap == non-termination; C17: failure only under overlap)
 			Json v = eng->judge(plan, out, ctx);
 			if (!v.is_null()) return v;
 			std::string sig = crash_signature(out);
